@@ -108,11 +108,16 @@ Section Laws2.
     bs B_int_to_chr st = Ok (set_stack st (VStr [Z.to_N z] :: r)).
   Proof.
     intros H [L1 L2]. start H.
-    assert (E1 : (z <? -2147483648)%Z = false) by (apply Z.ltb_ge; lia).
-    assert (E2 : (2147483647 <? z)%Z = false) by (apply Z.ltb_ge; lia).
     assert (E3 : (z <? 0)%Z = false) by (apply Z.ltb_ge; lia).
     assert (E4 : (1114111 <? z)%Z = false) by (apply Z.ltb_ge; lia).
-    rewrite E1, E2, E3, E4. reflexivity.
+    rewrite E3, E4. reflexivity.
+  Qed.
+  (* every other integer is a BibTeX error (never a foreign exception) *)
+  Lemma int_to_chr_error st z r : st_stack st = VInt z :: r -> (z < 0 \/ 1114111 < z)%Z ->
+    bs B_int_to_chr st = PyErr E_BST (-1).
+  Proof.
+    intros H Hz. start H. destruct Hz as [Hz|Hz]; apply Z.ltb_lt in Hz; rewrite Hz; [reflexivity|].
+    rewrite orb_true_r. reflexivity.
   Qed.
   Lemma int_to_str_law st z r : st_stack st = VInt z :: r ->
     bs B_int_to_str st = Ok (set_stack st (VStr (Z_to_str z) :: r)).
